@@ -60,7 +60,7 @@ def requirements(tier):
     req = {
         "sweep:days": 2000, "conv:pairs": 100000, "conv:near-midnight": 300, "arith:laws": 8000,
         "order:same-instant-pairs": 5000, "order:distinct-pairs": 2000, "range:forward": 1500, "range:backward": 1500,
-        "range:inclusive": 500, "policy:pass": 10, "policy:warning": 10, "policy:error": 10, "policy:invalid": 10,
+        "range:inclusive": 500, "policy:where:just-after": 8, "policy:where:just-before": 3, "policy:pass": 10, "policy:warning": 10, "policy:error": 10, "policy:invalid": 10,
         "policy:inside-table": 10,
     }
     for a in ts.SCALES:
@@ -500,9 +500,13 @@ def case_policy(ctx, job, idx, rng, st):
         mjd = grp.randint(41684, 57802) + rng.random()
         covered = False
     else:
-        where = grp.choice(["before", "after", "inside"])
-        mjd = {"before": grp.randint(30000, 41680), "after": grp.randint(57810, 70000), "inside": grp.randint(41690, 57800)}[where] + rng.random()
+        # "just-after" / "just-before": the days next to the tabulated span (the IERS files end with rows whose values are
+        # blank -- predictions not yet made -- which are no data either)
+        where = ["before", "after", "inside", "just-after", "just-after", "just-before"][(idx // 4) % 6]  # every class, every run
+        mjd = {"before": grp.randint(30000, 41680), "after": grp.randint(57810, 70000), "inside": grp.randint(41690, 57800),
+               "just-after": grp.randint(env.EOP_MJD_MAX + 1, env.EOP_MJD_MAX + 60), "just-before": grp.randint(env.EOP_MJD_MIN - 20, env.EOP_MJD_MIN - 1)}[where] + rng.random()
         covered = where == "inside"
+        ctx.count("policy:where:" + where)
     scale = rng.choice(ts.SCALES)
     config.set("eop", "missing_policy", policy)
     st["records"].clear()
